@@ -55,6 +55,8 @@ SEEDS_QUICK = [
     ("conv", "foo", "m"),
     ("keep", "foo"),
     ("keep", "kfoo"),
+    ("div", "foo", "bar"),
+    ("simp", "foo*s/bar"),
 ]
 SEEDS_THOROUGH = SEEDS_QUICK + [
     ("unit", "Mfoo"),
@@ -67,7 +69,7 @@ SEEDS_THOROUGH = SEEDS_QUICK + [
     ("contains", "kfoo"),
     ("getitem", "Mfoo"),
 ]
-PROBES = ["foo", "kfoo", "Mfoo", "foo/s", "foo**2", "kfoo*bar", "bar", "kbar", "m/foo", "ufoo", "m", "km"]
+PROBES = ["foo", "kfoo", "Mfoo", "foo/s", "foo**2", "kfoo*bar", "bar", "kbar", "m/foo", "ufoo", "m", "km", "kkfoo", "Mkfoo", "kkm", "mkbar"]
 ARR_PROGS = [
     ("mul", "foo", "foo"),
     ("mul", "kfoo", "bar"),
@@ -80,7 +82,16 @@ ARR_PROGS = [
     ("base", "kfoo/s"),
     ("sqrt", "foo**2"),
     ("div", "foo", "kfoo"),
+    ("div", "foo", "bar"),
+    ("div", "foo/s", "bar"),
+    ("mul", "foo", "1/bar"),
+    ("simp", "foo/bar"),
+    ("simp", "foo*s/bar"),
+    ("simp", "kfoo/foo"),
 ]
+
+
+POPULATED = (("add", "foo", 2.0, "length", True), ("add", "bar", 5.0, "length", False))
 
 
 def is_edit(ev):
@@ -165,8 +176,12 @@ def arr(r, s, vals=(1.0, 2.0)):
     return unyt.unyt_array(np.array(vals), s, registry=r)
 
 
-def run_prog(r, prog):
-    """Execute one array program against registry r; returns a canonical outcome."""
+def run_prog(r, prog, rp=None):
+    """Execute one array program against registry r; returns a canonical outcome.
+
+    rp: a cold registry with the same contents, used to read the *printed* unit of the result back, so that
+    the outcome also carries what the user sees (numbers x the meaning of str(units)), not only
+    numbers x units.base_value."""
     try:
         k = prog[0]
         if k == "mul":
@@ -181,13 +196,29 @@ def run_prog(r, prog):
             res = arr(r, prog[1]).in_base()
         elif k == "sqrt":
             res = np.sqrt(arr(r, prog[1]))
+        elif k == "simp":
+            u = Unit(prog[1], registry=r).simplify()
+            c, u2 = u.as_coeff_unit()
+            shown = ()
+            if rp is not None:
+                try:
+                    shown = (float(Unit(str(u), registry=rp).base_value),)
+                except Exception as e:  # noqa: BLE001
+                    shown = ("unreadable:" + type(e).__name__,)
+            return ("ok", (float(u.base_value), float(c) * float(u2.base_value)) + shown, str(dim_of(u.dimensions)) + "|" + str(dim_of(u2.dimensions)))
         else:
             raise ValueError(prog)
     except Exception as e:  # noqa: BLE001
         return ("raise", type(e).__name__)
     u = res.units
     si = np.asarray(res.d, dtype=float) * float(u.base_value)
-    return ("ok", tuple(float(x) for x in si), str(dim_of(u.dimensions)))
+    shown = ()
+    if rp is not None:
+        try:
+            shown = tuple(float(x) for x in np.asarray(res.d, dtype=float) * float(Unit(str(u), registry=rp).base_value))
+        except Exception as e:  # noqa: BLE001
+            shown = ("unreadable:" + type(e).__name__,)
+    return ("ok", tuple(float(x) for x in si) + shown, str(dim_of(u.dimensions)))
 
 
 def apply_event(w, ev):
@@ -262,9 +293,10 @@ def cold_registry(T):
 
 
 class System:
-    def __init__(self, edits, seeds):
+    def __init__(self, edits, seeds, prefix=()):
         self.edits = edits
         self.seeds = seeds
+        self.prefix = tuple(prefix)  # set-up events replayed before every history (not counted as deviations)
 
     def build(self, hist):
         world.reset_world()
@@ -274,7 +306,7 @@ class System:
         w.kept = []
         w.log = []
         w.edit_results = []
-        for ev in hist:
+        for ev in self.prefix + tuple(hist):
             got = apply_event(w, ev)
             if is_edit(ev):
                 want = ref_apply(w.T, ev)
@@ -283,7 +315,7 @@ class System:
         return w
 
     def canon(self, w, hist):
-        lru_events = tuple(ev for ev in hist if ev[0] in ("mul", "conv", "add2", "base", "sqrt", "div"))
+        lru_events = tuple(ev for ev in hist if ev[0] in ("mul", "conv", "add2", "base", "sqrt", "div", "simp"))
         return (
             tuple(sorted((k, (v[0], repr(v[1]), v[2])) for k, v in w.T.items())),
             world.lut_delta(w.r.lut, world._PRISTINE_TABLE),
@@ -316,7 +348,7 @@ class System:
     # ---- invariants --------------------------------------------------------------------------------
     def check(self, ctx, w, hist):
         ctx.count("evaluations")
-        case = {"history": [list(e) for e in hist]}
+        case = {"history": [list(e) for e in hist], "prefix": [list(e) for e in self.prefix]}
         info = _hist_info(hist)
         # edit outcomes agree with the reference model
         for ev, want, got in w.edit_results:
@@ -337,13 +369,14 @@ class System:
         if world.lut_delta(world.D.lut) or not world.default_table_intact():
             ctx.violation("C12|default|mode=default-registry-written", case, None, world.lut_delta(world.D.lut))
         warm = [resolve_real(w.r, s) for s in PROBES]
-        warm_arr = [run_prog(w.r, p) for p in ARR_PROGS]
+        rp = cold_registry(w.T)  # only ever used to read printed units back
+        warm_arr = [run_prog(w.r, p, rp) for p in ARR_PROGS]
         # cold world with the same contents
         world.clear_lru()
         rc = cold_registry(w.T)
         cold = [resolve_real(rc, s) for s in PROBES]
         world.clear_lru()
-        cold_arr = [run_prog(rc, p) for p in ARR_PROGS]
+        cold_arr = [run_prog(rc, p, rp) for p in ARR_PROGS]
         ref = [resolve_ref(w.T, s) for s in PROBES]
         stale_strings = set()
         for s, a, b, c in zip(PROBES, warm, cold, ref):
@@ -352,7 +385,7 @@ class System:
             if not same(b, c):
                 ctx.violation(
                     f"C12|fresh|probe={_pclass(s)}|mode=fresh-registry-differs-from-definition",
-                    {"history": case["history"], "probe": s},
+                    {"history": case["history"], "prefix": case["prefix"], "probe": s},
                     c,
                     b,
                 )
@@ -370,7 +403,7 @@ class System:
                 ctx.violation(
                     f"C12|unit|probe={_pclass(s)}|edit={info['last_edit'].get(_base(s), 'none')}"
                     f"|seeded={int(_seeded(hist, s))}|mode={mode}",
-                    {"history": case["history"], "probe": s},
+                    {"history": case["history"], "prefix": case["prefix"], "probe": s},
                     b,
                     a,
                 )
@@ -378,7 +411,7 @@ class System:
             ctx.outcome(("prog", p, a[0], b[0]))
             ok = a[0] == b[0] and (
                 a[0] != "ok"
-                or (a[2] == b[2] and np.allclose(a[1], b[1], rtol=1e-12, atol=0.0))
+                or (a[2] == b[2] and _close_tuple(a[1], b[1]))
             )
             if ok:
                 continue
@@ -390,12 +423,24 @@ class System:
             ctx.violation(
                 f"C12|array|prog={p[0]}|units={'+'.join(_pclass(x) for x in p[1:])}"
                 f"|edit={info['last_any']}|mode=history-dependent-{a[0]}-vs-{b[0]}",
-                {"history": case["history"], "program": list(p)},
+                {"history": case["history"], "prefix": case["prefix"], "program": list(p)},
                 b,
                 a,
             )
         if len(hist) == 3:
             ctx.sample({"history": case["history"], "warm": [x[0] for x in warm]})
+
+
+def _close_tuple(x, y):
+    if len(x) != len(y):
+        return False
+    for a, b in zip(x, y):
+        if isinstance(a, str) or isinstance(b, str):
+            if a != b:
+                return False
+        elif not np.allclose(a, b, rtol=1e-12, atol=0.0):
+            return False
+    return True
 
 
 def _base(s):
@@ -452,7 +497,14 @@ def run(ctx):
         system = System(EDITS_THOROUGH, SEEDS_THOROUGH)
         depth, dev, budget = 5, 3, 1500
     stats = explore.explore(ctx, system, depth, dev, deadline=t0 + budget)
+    # second search from a populated registry (foo prefixable, bar commensurable with it): seed / edit / seed
+    # orders that need two user symbols to exist do not spend the edit budget on creating them
+    populated = System(system.edits, system.seeds, prefix=POPULATED)
+    stats2 = explore.explore(ctx, populated, depth - 1 if ctx.tier == "quick" else depth, dev, deadline=time.time() + budget)
     cov = dict(stats)
+    cov.update({k + "_populated_start": v for k, v in stats2.items()})
+    cov["populated_start"] = [list(e) for e in POPULATED]
+    stats = dict(stats, bfs_capped=stats["bfs_capped"] or stats2["bfs_capped"])
     cov["rule"] = (
         "BFS over event histories (registry edits add/re-add/modify-float/modify-quantity/remove/"
         "define_unit interleaved with Unit construction, array arithmetic/conversion and keep-object "
@@ -481,7 +533,7 @@ def replay(case):
     from mc import harness
 
     hist = tuple(tuple(e) for e in case["history"])
-    system = System(EDITS_THOROUGH, SEEDS_THOROUGH)
+    system = System(EDITS_THOROUGH, SEEDS_THOROUGH, prefix=tuple(tuple(e) for e in case.get("prefix", ())))
     ctx = harness.Ctx(PROPERTY, "quick", 0)
     w = system.build(hist)
     system.check(ctx, w, hist)
